@@ -605,3 +605,28 @@ def a_stopped_step_loop_is_finalized(ctx):
     """the step monitor of a stopped run ends in the reported result however the run is driven: Step itself calls Finalize() when the step it took ended the run (a solver that logs its latest iteration lazily - Powell - writes that record only there, so a `while not solver.Step()` loop must not depend on Solve for it; shared with C05.j)"""
     from .c05 import finalize_on_stop
     finalize_on_stop(ctx)
+
+
+@rule('C04.n', min_instances=1)
+def one_time_inputs_do_not_outlive_their_call(ctx):
+    """callback and disp are one-time inputs of a Step / Solve call: the settings every _process_inputs returns are built inside the call - no solver class keeps them in a class-level container that the method updates in place (a callback given once would then be invoked by every later step of every solver of that class); positive control on a synthetic class"""
+    import types
+    probe_src = 'class S(object):\n    _settings = {"callback": None}\n    def _process_inputs(self, kwds):\n        settings = self._settings\n        settings.update(kwds)\n        return settings\n'
+    tree = ast.parse(probe_src)
+    for n in ast.walk(tree):
+        for c in ast.iter_child_nodes(n):
+            c._parent = n
+    cnode = tree.body[0]
+    fake_m = types.SimpleNamespace(node=cnode.body[1], qualname='S._process_inputs', args=lambda: ['self', 'kwds'], cls=True, parent=None)
+    fake_k = types.SimpleNamespace(node=cnode, methods={'_process_inputs': fake_m}, name='S')
+    ctx.need(len(shared_class_containers(ctx.model, [fake_k])) == 1, 'shared-container detector lost its positive control')
+    classes = [ctx.cls(AS)] + [k for k in ctx.model.subclasses(ctx.cls(AS), strict=True)]
+    found = shared_class_containers(ctx.model, classes)
+    for kk, a, m, node in found:
+        ctx.touch(m)
+        ctx.bad('%s#class-level[%s]' % (m.qualname, a), '%s updates the class-level container %s.%s in place: what one call stores there (a callback, a display flag) is seen by every later call on every instance'
+                % (m.qualname, kk.name, a), m, enclosing_stmt(node) or m.node)
+    if not found:
+        n = sum(1 for k in classes if '_process_inputs' in k.methods)
+        ctx.ok('_process_inputs#per-call', '%d solver classes: no class-level container is updated in place (%d _process_inputs overrides)' % (len(classes), n),
+               ctx.func(AS + '._process_inputs'), ctx.func(AS + '._process_inputs').node)
